@@ -102,6 +102,8 @@ class Worker:
             return None
 
     def death_name(self):
+        if self.rc == "timeout":
+            return "hang_timeout"
         if isinstance(self.rc, int) and self.rc < 0:
             try:
                 return signal.Signals(-self.rc).name
@@ -299,7 +301,7 @@ def _main(prop, args, seed, t0, workdir, logdir):
     workers = [Worker(prop, j, f"shard{i}", workdir, logdir) for i, j in enumerate(jobs)]
     results = []
     for i, w in enumerate(workers):
-        w.wait(budget * 3 + 1800)
+        w.wait(budget * 2 + 300)
         if w.died:
             res = handle_death(prop, w, jobs[i], tier, seed, workdir, logdir, violations)
             if res is not None:
@@ -377,7 +379,8 @@ def handle_death(prop, w, job, tier, seed, workdir, logdir, violations):
     case = w.last_case()
     if case is not None:
         for attempt in range(3):
-            out = replay_cases(prop, [case], tier, seed, workdir, logdir, tag=f"{w.tag}_crash{attempt}")[0]
+            out = replay_cases(prop, [case], tier, seed, workdir, logdir, tag=f"{w.tag}_crash{attempt}",
+                               timeout=300)[0]
             crash = [f for f in out["fails"] if f["signature"].startswith("crash|")]
             if crash:
                 v = {"signature": crash[0]["signature"], "case": case, "sub": "crash",
@@ -385,7 +388,7 @@ def handle_death(prop, w, job, tier, seed, workdir, logdir, violations):
                 violations.append((v["signature"], write_violation(prop, seed, v)))
                 return None
     w2 = Worker(prop, job, w.tag + "_rerun", workdir, logdir)
-    w2.wait(job["budget_s"] * 3 + 1800)
+    w2.wait(job["budget_s"] * 2 + 300)
     if w2.died:
         v = {"signature": f"crash|shard|{w2.death_name()}", "case": {"kind": "_shard", "job": job}, "sub": "crash",
              "detail": {"first_death": name, "log": w2.logfile}}
